@@ -230,6 +230,9 @@ pub struct Tx {
     /// a validation failure (the body is then re-executed)
     #[serde(default)]
     pub f2: Vec<u32>,
+    /// when non-zero, F1 only fires in this attempt (1-based) of the transaction
+    #[serde(default)]
+    pub f1_attempt: u32,
 }
 
 #[derive(Clone, Debug, PartialEq, Eq, Hash, Serialize, Deserialize)]
@@ -279,6 +282,7 @@ pub fn run_tx(m: &AnyMap, tx: &Tx) -> TxOut {
     fast_stm::verif::clear_last_commit();
     fast_stm::verif::clear_attempts();
     faults::arm(&tx.f1);
+    faults::only_in_attempt(tx.f1_attempt);
     faults::clear_rejections();
     if !tx.f2.is_empty() {
         fast_stm::verif::set_forced_failures(tx.f2.clone());
